@@ -350,7 +350,9 @@ class Expander:
                         if isinstance(s, ast.FunctionDef):
                             self._do_function(modname, node, s)
             sink_selected_receivers(m.tree)
+            unroll_literal_loops(m.tree)
             loops_to_comprehensions(m.tree)
+            flatten_spellings(m.tree)
             for node in ast.walk(m.tree):
                 for child in ast.iter_child_nodes(node):
                     child._parent = node
@@ -443,6 +445,24 @@ def loops_to_comprehensions(tree: ast.AST):
                     is_list = (isinstance(v, ast.List) and not v.elts) or (isinstance(v, ast.Call) and isinstance(v.func, ast.Name) and v.func.id == "list" and not v.args and not v.keywords)
                     if not (is_dict or is_list):
                         continue
+                    exts = loop.body if is_list and 1 <= len(loop.body) <= 3 and all(
+                        isinstance(b, ast.Expr) and isinstance(b.value, ast.Call) and isinstance(b.value.func, ast.Attribute) and b.value.func.attr == "extend" and isinstance(b.value.func.value, ast.Name)
+                        and b.value.func.value.id == d and len(b.value.args) == 1 and not b.value.keywords and not any(isinstance(x, ast.Name) and x.id == d for x in ast.walk(b.value.args[0])) for b in loop.body) else None
+                    if exts and not any(isinstance(x, ast.Name) and x.id == d for x in ast.walk(loop.iter)):
+                        # l = []; for T in IT: l.extend(E1); l.extend(E2)   ==   [e for T in IT for e in E1 + E2]
+                        bound = {x.id for x in ast.walk(loop.target) if isinstance(x, ast.Name)}
+                        later = [x for st in blk[i + 1:] for x in ast.walk(st) if isinstance(x, ast.Name) and x.id in bound and isinstance(x.ctx, ast.Load)]
+                        if not later:
+                            src = exts[0].value.args[0]
+                            for b in exts[1:]:
+                                src = ast.BinOp(left=src, op=ast.Add(), right=b.value.args[0])
+                            comp = ast.ListComp(elt=ast.Name(id="_e__flat", ctx=ast.Load()), generators=[ast.comprehension(target=loop.target, iter=loop.iter, ifs=[], is_async=0),
+                                                                                                            ast.comprehension(target=ast.Name(id="_e__flat", ctx=ast.Store()), iter=src, ifs=[], is_async=0)])
+                            new = ast.copy_location(ast.Assign(targets=[ast.Name(id=d, ctx=ast.Store())], value=comp), init)
+                            blk[i - 1:i + 1] = [new]
+                            ast.fix_missing_locations(new)
+                            i -= 1
+                        continue
                     fl = flatten(loop.body, [])
                     if fl is None:
                         continue
@@ -471,6 +491,107 @@ def loops_to_comprehensions(tree: ast.AST):
                     blk[i - 1:i + 1] = [new]
                     ast.fix_missing_locations(new)
                     i -= 1
+
+
+def flatten_spellings(tree: ast.AST):
+    """`list(itertools.chain(*[E for T in IT]))` and `list(itertools.chain.from_iterable(E for T in IT))` are the nested
+    comprehension `[e for T in IT for e in E]`; `name.sort()` (no arguments) on a local list is `name = sorted(name)`."""
+    for node in ast.walk(tree):
+        for f, v in ast.iter_fields(node):
+            items = v if isinstance(v, list) else [v]
+            for k, c in enumerate(items):
+                if not (isinstance(c, ast.Call) and isinstance(c.func, ast.Name) and c.func.id == "list" and len(c.args) == 1 and not c.keywords and isinstance(c.args[0], ast.Call)):
+                    continue
+                inner = c.args[0]
+                fn = ast.unparse(inner.func)
+                lc = None
+                if fn in ("itertools.chain", "chain") and len(inner.args) == 1 and isinstance(inner.args[0], ast.Starred) and isinstance(inner.args[0].value, (ast.ListComp, ast.GeneratorExp)):
+                    lc = inner.args[0].value
+                elif fn in ("itertools.chain.from_iterable", "chain.from_iterable") and len(inner.args) == 1 and isinstance(inner.args[0], (ast.ListComp, ast.GeneratorExp)):
+                    lc = inner.args[0]
+                if lc is None or len(lc.generators) != 1:
+                    continue
+                new = ast.copy_location(ast.ListComp(elt=ast.Name(id="_e__flat", ctx=ast.Load()), generators=[lc.generators[0], ast.comprehension(target=ast.Name(id="_e__flat", ctx=ast.Store()), iter=lc.elt, ifs=[], is_async=0)]), c)
+                if isinstance(v, list):
+                    v[k] = new
+                else:
+                    setattr(node, f, new)
+    for fn_ in [n for n in ast.walk(tree) if isinstance(n, ast.FunctionDef)]:
+        local = _locals_of(fn_)
+        for owner in ast.walk(fn_):
+            for field in ("body", "orelse", "finalbody"):
+                blk = getattr(owner, field, None)
+                if not (isinstance(blk, list) and blk and isinstance(blk[0], ast.stmt)):
+                    continue
+                for k, st in enumerate(blk):
+                    if isinstance(st, ast.Expr) and isinstance(st.value, ast.Call) and isinstance(st.value.func, ast.Attribute) and st.value.func.attr == "sort" and not st.value.args and not st.value.keywords \
+                            and isinstance(st.value.func.value, ast.Name) and st.value.func.value.id in local:
+                        n_ = st.value.func.value.id
+                        blk[k] = ast.copy_location(ast.Assign(targets=[ast.Name(id=n_, ctx=ast.Store())], value=ast.Call(func=ast.Name(id="sorted", ctx=ast.Load()), args=[ast.Name(id=n_, ctx=ast.Load())], keywords=[])), st)
+                        ast.fix_missing_locations(blk[k])
+
+
+def unroll_literal_loops(tree: ast.AST):
+    """`for T in (a, b, c): BODY` over a literal tuple / list of at most 6 items (or a local bound to one just before and used
+    nowhere else) is BODY with T = a, then with T = b, ...: the loop is unrolled (no break / continue / else in it)."""
+    for fn_ in [n for n in ast.walk(tree) if isinstance(n, ast.FunctionDef)]:
+        for owner in ast.walk(fn_):
+            for field in ("body", "orelse", "finalbody"):
+                blk = getattr(owner, field, None)
+                if not (isinstance(blk, list) and blk and isinstance(blk[0], ast.stmt)):
+                    continue
+                k = 0
+                while k < len(blk):
+                    st = blk[k]
+                    k += 1
+                    if not (isinstance(st, ast.For) and not st.orelse) or any(isinstance(x, (ast.Break, ast.Continue)) for x in ast.walk(st)):
+                        continue
+                    seq = st.iter
+                    drop_prev = False
+                    if isinstance(seq, ast.Name) and k >= 2 and isinstance(blk[k - 2], ast.Assign) and len(blk[k - 2].targets) == 1 and isinstance(blk[k - 2].targets[0], ast.Name) \
+                            and blk[k - 2].targets[0].id == seq.id and isinstance(blk[k - 2].value, (ast.Tuple, ast.List)):
+                        uses = [x for x in ast.walk(fn_) if isinstance(x, ast.Name) and x.id == seq.id and isinstance(x.ctx, ast.Load)]
+                        if len(uses) == 1:
+                            seq = blk[k - 2].value
+                            drop_prev = True
+                    if not isinstance(seq, (ast.Tuple, ast.List)) or not (1 <= len(seq.elts) <= 6) or any(isinstance(e, ast.Starred) for e in seq.elts):
+                        continue
+                    tg = st.target
+                    names = [tg] if isinstance(tg, ast.Name) else (list(tg.elts) if isinstance(tg, ast.Tuple) and all(isinstance(x, ast.Name) for x in tg.elts) else None)
+                    if names is None:
+                        continue
+                    bound = {n_.id for n_ in names}
+                    if any(isinstance(x, ast.Name) and x.id in bound and isinstance(x.ctx, ast.Store) for b in st.body for x in ast.walk(b)):
+                        continue
+                    after_uses = [x for s2 in blk[k:] for x in ast.walk(s2) if isinstance(x, ast.Name) and x.id in bound and isinstance(x.ctx, ast.Load)]
+                    if after_uses:
+                        continue
+                    out = []
+                    ok = True
+                    for e in seq.elts:
+                        if isinstance(tg, ast.Name):
+                            mapping = {tg.id: e}
+                        elif isinstance(e, (ast.Tuple, ast.List)) and len(e.elts) == len(names):
+                            mapping = {n_.id: v_ for n_, v_ in zip(names, e.elts)}
+                        else:
+                            ok = False
+                            break
+                        if not all(isinstance(v_, (ast.Name, ast.Constant, ast.Attribute)) for v_ in mapping.values()):
+                            ok = False
+                            break
+                        try:
+                            out.extend(_Renamer({k_: _clone(v_) for k_, v_ in mapping.items()}).visit(_clone(b)) for b in st.body)
+                        except _Unsupported:
+                            ok = False
+                            break
+                    if not ok:
+                        continue
+                    for b in out:
+                        for x in ast.walk(b):
+                            ast.copy_location(x, st)
+                    lo = k - 2 if drop_prev else k - 1
+                    blk[lo:k] = out
+                    k = lo + len(out)
 
 
 def _replace_node(root: ast.AST, old: ast.AST, new: ast.AST):
